@@ -88,7 +88,24 @@ ENGINES += [
     {"name": "rtmr", "path": "spec/Rtmr.tla", "serves_properties": ["C17"], "kind_free_text": "TLA+ spec of RTMR extension over a model TSM + TLC + in-memory configfs client"},
     {"name": "retry", "path": "spec/Retry.tla", "serves_properties": ["C20"], "kind_free_text": "TLA+ spec of the retry loop (safety + liveness) + TLC + timed runs"},
 ]
-NOT_APPLICABLE = [
-    {"property_id": p, "reason": "check under construction in this round (specification and driver not yet registered); see DESIGN.md §4"}
-    for p in ("C16", "C18", "C19")
+NOT_APPLICABLE = []
+
+CHECKS.update({
+    "C16": dict(engine="sharedquote", design_ref="DESIGN.md §4 C16", technique="TLA+ model checking (TLC) of concurrent calls over shared memory cells + to-capacity snapshots + Go race detector runs judged by TLC",
+                text=SM + "For C16 TLC explores all interleavings of three concurrent calls over the memory cells (raw input, live and spare part of every message slice, option byte strings); on the code every (call kind, message origin) pair "
+                "runs under a before/after snapshot of every reachable byte slice up to its capacity (spare bytes pre-filled with a canary), parsing is probed for aliasing, and combinations of call kinds run concurrently in a -race build whose "
+                "reports are attributed to the case; the trace judge demands the model's (empty) footprint, zero race reports and verdicts equal to the call run alone.",
+                note=TRUST + " Real schedules are explored by the Go race detector under stress, not by TLC (DESIGN.md §6)."),
+    "C18": dict(engine="ccel", design_ref="DESIGN.md §4 C18", technique="TLA+ model checking (TLC) of the two gates and the replay + trace validation on the sample CCEL log with re-signed quotes",
+                text=SM + "For C18 every combination of verification fault, policy fault, flipped RTMR (each register; sampled bits in quick, every bit in thorough) and option level; the quote carries the sample quote's header and TD body, "
+                "re-signed under a generated PKI so that the replay matches; the set of registers the log measures is computed from the log and must equal the specification's constant.", note=TRUST),
+    "C19": dict(engine="checktool", design_ref="DESIGN.md §4 C19", technique="TLA+ model checking (TLC) of flag/config merge and exit-code selection + trace validation of real process runs",
+                text=SM + "For C19 the real tools/check binary is built from the tree and run for every single deviation (thorough: pairs): each policy field x config value x flag value, config shapes and formats, quote formats and validity, "
+                "root-of-trust sources, reachable / unreachable / failing / tampered PCS (the unmodified binary reaches an in-harness fake PCS through HTTPS_PROXY); the exit code must be in the specification's set, a Go panic is never accepted; "
+                "the library's error classes for failed downloads are checked with errors.As.", note=TRUST),
+})
+ENGINES += [
+    {"name": "sharedquote", "path": "spec/SharedQuote.tla", "serves_properties": ["C16"], "kind_free_text": "TLA+ spec of memory cells and concurrent calls + TLC + snapshot / race-detector driver"},
+    {"name": "ccel", "path": "spec/Ccel.tla", "serves_properties": ["C18"], "kind_free_text": "TLA+ spec of ParseCcelWithTdQuote's gates + TLC + sample-log driver"},
+    {"name": "checktool", "path": "spec/CheckTool.tla", "serves_properties": ["C19"], "kind_free_text": "TLA+ spec of the check tool's merge and exit codes + TLC + process driver with fake PCS"},
 ]
